@@ -98,3 +98,81 @@ def check_thinning(repo, chk):
     chk.instance("T-thin", "single_sampling2 accepts with rnd * bound < weight: %s" % ok2)
     if not ok2:
         chk.violation("T-thin", s2.key, "accept", "acceptance test is not rnd * max_weight < weight: `%s`" % (norm_text(cuts[0].value) if cuts else "missing"), file=GEN, line=s2.lineno)
+
+
+def check_accept_bound(repo, chk):
+    """single_sampling2 evaluated symbolically on its four paths (importance function given or not, bound given or not):
+    the quantity whose maximum defines the bound is the very quantity compared with rnd * bound in the accept test"""
+    from ..sym import PyFunc
+
+    chk.rule("A-bound", "single_sampling2: on every path the accept test compares rnd * bound with the same weight expression whose maximum (times a factor >= 1) the bound is raised to; with an importance function both are amp/importance")
+    fn = repo.fn(GEN + "::single_sampling2")
+    Wt, Ft, M0 = sp.symbols("W F M0", positive=True)
+    RMAX = sp.Function("reduce_max")
+    n_paths = 0
+    for with_imp in (False, True):
+        for bound in ("none", "given-low", "given-high"):
+            seen = {}
+
+            def numeric(tr, d, args, kwargs, n):
+                last = d.split(".")[-1]
+                if last == "reduce_max":
+                    seen.setdefault("max_arg", []).append(sp.sympify(args[0]))
+                    return RMAX(sp.sympify(args[0]))
+                if last == "uniform":
+                    return sp.Symbol("rnd", positive=True)
+                return NotImplemented
+
+            def policy(cond, tr):
+                # max_weight < new_max_weight : explored both ways
+                return bound == "given-low"
+
+            def mask(tr, args, kwargs, n):
+                seen["mask"] = args[1]
+                return ("masked", args[0])
+
+            captured = {}
+
+            class T(Translator):
+                def compare(self, op, a, b):
+                    if isinstance(op, (ast.Lt, ast.Gt)) and getattr(a, "has", None) and sp.sympify(a).has(sp.Symbol("rnd", positive=True)):
+                        captured["cut"] = (type(op).__name__, sp.sympify(a), sp.sympify(b))
+                        return sp.Symbol("CUT")
+                    if isinstance(op, (ast.Lt, ast.Gt)) and getattr(b, "has", None) and sp.sympify(b).has(sp.Symbol("rnd", positive=True)):
+                        captured["cut"] = ("Gt" if isinstance(op, ast.Lt) else "Lt", sp.sympify(b), sp.sympify(a))
+                        return sp.Symbol("CUT")
+                    return Translator.compare(self, op, a, b)
+
+            tr = T(repo, hooks={"numeric_call": numeric, "allow_shape": True, "tf_pwa/data.py::data_mask": mask}, where_policy=policy, max_depth=3)
+            args = [PyFunc(lambda n_: sp.Symbol("DATA")), PyFunc(lambda d_: Wt), sp.Symbol("N", positive=True), None if bound == "none" else M0, PyFunc(lambda d_: Ft) if with_imp else None]
+            try:
+                out = tr.call_fn(fn, args)
+            except Unmodelled as e:
+                raise AnalysisError("single_sampling2 is not interpretable symbolically (%s, bound %s): %s" % ("importance" if with_imp else "plain", bound, e))
+            n_paths += 1
+            want_w = Wt / Ft if with_imp else Wt
+            label = "%s, bound %s" % ("with importance_f" if with_imp else "no importance_f", bound)
+            if "cut" not in captured or not seen.get("max_arg"):
+                raise AnalysisError("single_sampling2 (%s): accept test / reduce_max not found on the path" % label)
+            kind, lhs, rhs = captured["cut"]  # lhs contains rnd
+            ret_bound = sp.sympify(out[1]) if isinstance(out, tuple) and len(out) == 2 else None
+            if ret_bound is None:
+                raise AnalysisError("single_sampling2 no longer returns (data, bound)")
+            # all quantities positive: accept iff lhs < rhs  <=>  lhs/rhs < 1 ; required: lhs/rhs == rnd * bound / weight
+            ok_w = kind == "Lt" and equal(lhs / rhs, sp.Symbol("rnd", positive=True) * ret_bound / want_w)[0] is True
+            ok_max = equal(seen["max_arg"][-1], want_w)[0] is True
+            ok_lhs = ok_w
+            if bound == "given-high":
+                ok_b = equal(ret_bound, M0)[0] is True
+            else:
+                ratio = sp.simplify(ret_bound / RMAX(want_w))
+                ok_b = bool(ratio.is_number and ratio >= 1)
+            chk.oblige("A-bound", "single_sampling2 (%s): accept iff rnd * returned bound < %s: %s; maximum taken of the same expression: %s%s; bound %s: %s" % (label, want_w, ok_w, ok_max, "" if ok_lhs else "", "kept" if bound == "given-high" else ">= maximum", ok_b), ok_w and ok_max and ok_lhs and ok_b)
+            if not ok_max:
+                chk.violation("A-bound", fn.key, "max-of:%s" % ("importance" if with_imp else "plain"), "%s: the bound is raised to the maximum of `%s` while events are accepted with weight `%s`: candidates above the bound are always accepted and the sample no longer follows the density" % (label, seen["max_arg"][-1], rhs), file=GEN, line=fn.lineno)
+            if not ok_w or not ok_lhs:
+                chk.violation("A-bound", fn.key, "accept:%s" % ("importance" if with_imp else "plain"), "%s: accept test is `%s %s %s`, expected rnd * bound < %s" % (label, lhs, "<" if kind == "Lt" else ">", rhs, want_w), file=GEN, line=fn.lineno)
+            if not ok_b:
+                chk.violation("A-bound", fn.key, "bound:%s:%s" % ("importance" if with_imp else "plain", bound), "%s: returned bound `%s` is not %s" % (label, ret_bound, "the given bound" if bound == "given-high" else "at least the maximum weight of the batch"), file=GEN, line=fn.lineno)
+    if n_paths < 6:
+        raise AnalysisError("A-bound: %d paths" % n_paths)
